@@ -164,6 +164,27 @@ def r1(ck, prog, run):
                   rph.expr + poly.expr(dt), tempo)
             ck.same("R1", fp.where, f"entry {k}: integer reference phase", "carries exactly the digits before the decimal point (the fraction goes into coefficient 0)",
                     rph.expr == RI, found=str(rph.expr))
+            if k == 0:
+                # the polynomial in the form from_polyco stores it (mapped or converted, whatever domain/window it is given) is the one
+                # phasepol re-centres: the two must agree on that form.  phasepol is evaluated on a one-entry table holding this very object.
+                pp_ = prog.func("PhasePredictor.phasepol")
+                d_ = sp.Symbol("d", real=True)
+                x_ = PolyV.X
+                pred1 = predictor_model(prog, [sp.Symbol("tm0", real=True)], sp.Integer(5400), [rph.expr], [poly])
+                tsc = Num(sp.Symbol("t", real=True) / Hz, kind="time", shape=())
+                rr = ck.attempt("R1", pp_.where, "phasepol(t0) on the entry as from_polyco stored it", "evaluates", lambda: eval_with_index(prog, pp_, pred1, tsc, Num(0), Num(d_)))
+                if rr is not None:
+                    res_, log_, ev_ = rr
+                    fa_ = [q_[1] for q_ in log_.events if q_[0] == "from_angles"]
+                    if isinstance(res_, TupleV) and len(res_.items) == 2 and isinstance(res_.items[0], PolyV) and len(fa_) == 1 and isinstance(fa_[0]["phase1"], Num):
+                        ref_ = sp.simplify(fa_[0]["phase1"].expr / (2 * sp.pi))
+                        if fa_[0]["phase2"] is not NONE and isinstance(fa_[0]["phase2"], Num):
+                            ref_ = ref_ + sp.simplify(fa_[0]["phase2"].expr / (2 * sp.pi))
+                        ck.eq("R1", pp_.where, "from_polyco entry -> phasepol(t0): polynomial(x) + reference phase",
+                              "== rphase + poly(x + dt) for the polynomial exactly as from_polyco stored it (its domain and window included)",
+                              res_.items[0].expr(x_) + ref_, rph.expr + poly.expr(x_ + d_))
+                    else:
+                        ck.unk("R1", pp_.where, "from_polyco entry -> phasepol(t0)", "returns (polynomial, Phase built from one number)", repr(res_)[:160])
             tm = e.attrs.get("tmid")
             ck.eq("R1", fp.where, f"entry {k}: tmid", "TMID read as MJD", tm.expr if isinstance(tm, Num) else sp.Symbol("none"),
                   sp.Symbol(f"TMID{k}", real=True) * 86400 / Hz)
